@@ -1,0 +1,5 @@
+//go:build !verif
+
+package j5schema
+
+func verifAt(point string, key string) {}
